@@ -147,6 +147,16 @@ def main():
             c.notes.append(f"{n}: model/implementation mismatch at histories {[s + i for i in idx][:10]}")
             for i in idx[:3]:
                 c.cov.setdefault("mismatching_histories", []).append(hists[s + i])
+    # "at every moment": one thread renders a compound unit, paused before each source line of formatting.py in turn, while another does
+    # arithmetic on that unit and on its prefixed / unprefixed twins
+    rr_ = impl("renderrace_worker.py", {"units": 2 if c.tier == "quick" else 4, "stride": 2 if c.tier == "quick" else 1}, timeout=1500)["results"]
+    for x in rr_:
+        c.count(["render-in-progress", x["unit"], x["rendering"], x["k"]], nontrivial=x["paused"])
+        for b in x["bad"]:
+            c.violation("inconsistent-while-rendering", f"while a rendering of a compound unit stood before its line {x['k']} of {x['lines']} in formatting.py, {b[0]} computed by another thread "
+                        f"gave a unit whose dimension is not the product of its factors' dimensions: {json.dumps(b[1:])[:300]}",
+                        {"unit": x["unit"], "rendering": x["rendering"], "paused_before_line": x["k"], "result": b, "how": "harness/impl/renderrace_worker.py"})
+    c.cov["render_pause_points"] = len(rr_)
     c.finish(rule="random histories of base-unit definitions and unit expressions (products, quotients, powers, roots, "
                   "prefixing, numerator/denominator via every rendering route, unprefixing, pickle/copy/json routes) over "
                   "registered and freshly defined base units with mixed-sign derived dimensions; after every step the "
